@@ -3,7 +3,9 @@ PROP = {'kani_groups': ['hk_batcher'],
  'technique': 'bounded model checking (Kani/CBMC) of one-step inductive sender harnesses over the real emit_batcher '
               'code from an arbitrary valid state: the capacity invariant is shown preserved by every operation, so '
               'it holds after any history',
- 'functions': ['Sender::{send, try_send, send_or_wait, when_empty}, BatchError::{retry, no_retry, '
+ 'functions': ['ChannelMetrics::sample_metrics via Sender::metric_source / Receiver::metric_source (c09_*_s_metrics_*: the caller-supplied sampler '
+               'runs with the state lock free — an emitting thread is never made to wait for user code; explored for the first 2 of the 7 metrics)',
+               'Sender::{send, try_send, send_or_wait, when_empty}, BatchError::{retry, no_retry, '
                'try_into_retryable, into_retryable}',
                'internal_metrics::Counter (queue_full_truncated, queue_full_blocked) as read through the injected '
                'snapshot'],
@@ -12,8 +14,8 @@ PROP = {'kani_groups': ['hk_batcher'],
            '(thorough 3), <= 2 wait rounds, arbitrary clock readings, shared state arbitrarily replaced during each '
            'wait',
  'outside': 'CANNOT BE ENCODED (Kani executes one thread, no OS): batcher/src/tokio.rs and web.rs entirely; the '
-            'blocking wrappers of batcher/src/sync.rs (Trigger/condvar wait_timeout, Instant, thread spawn/join, its '
-            'block_on); wall-clock time; real unwinding; the std mutex itself (assumed). The multi-step composition '
+            'real condition variable, Instant, thread spawn/join of batcher/src/sync.rs (its blocking wrappers run on '
+            'stand-ins, see stubs); wall-clock time; real unwinding; the std mutex itself (assumed). The multi-step composition '
             '(any number of senders, any interleaving, histories of any length) is a WRITTEN induction over the '
             'solver-checked one-step obligations (harness/hk_batcher/src/lib.rs), not a solver result; a bounded '
             'multi-step schedule harness did not fit CBMC (20 min symex, no verdict). Also outside: capacities > 3 '
@@ -21,7 +23,10 @@ PROP = {'kani_groups': ['hk_batcher'],
             "worker; blocking_send's own timeout arithmetic (Instant/condvar) — only the loop it drives "
             '(send_or_wait) is covered; the emitter-specific Channel impls (emit_file::EventBatch, emit_otlp '
             'Channel) and their len/clear; capacity 0 (excluded by the property)',
- 'stubs': ['batcher:mutex — std::sync::Mutex in batcher/src/lib.rs -> single-owner cell with the same lock() API, an '
+ 'stubs': ["batcher:sync-* — batcher/src/sync.rs: std::sync::{Condvar, Mutex} and std::time::Instant -> stand-ins: Instant reads a harness clock (whole seconds); Condvar::wait_timeout(guard, dur) releases the guard, runs the harness environment step (time passes; the batch carrying the parked callbacks may finish, which runs them) and returns woken / timed out (spurious wake-ups included); assumed of the std condvar: a wait reported as timed out lasted at least dur; the Trigger's own mutex is a single-owner cell",
+           'batcher:send-or-wait-pub — visibility only: the private Sender::send_or_wait is made pub in the scratch tree (harness module s_sow)',
+           "the mutex stand-in also counts the guards alive (HELD): every harness callback standing for user code (flush / empty callbacks, samplers, processors, waits, the condvar environment step) asserts HELD == 0 — user code never runs inside the channel's critical section",
+           'batcher:mutex — std::sync::Mutex in batcher/src/lib.rs -> single-owner cell with the same lock() API, an '
            'acquisition counter and a hook called before every acquisition; asserts the lock is never re-acquired '
            "while held. Mutual exclusion itself is std's contract and is ASSUMED",
            'batcher:catch-unwind — std::panic::catch_unwind -> panic plan: the i-th guarded call either runs its '
